@@ -51,6 +51,8 @@ def requests(n, seed, full=True):
         return list(U.orderings(n, full=full))
     rnd = random.Random(seed)
     out = [[k] for k in range(n)] + [list(range(n)), list(range(n))[::-1]]
+    # pairs whose positions are far apart (position sets of a long axis do not iterate in ascending order)
+    out += [[a, b] for a in range(n) for b in range(a + 1, n) if b - a in (7, 8)][:6]
     for _ in range(8):
         r = rnd.randint(2, n - 1)
         out.append(rnd.sample(range(n), r))
@@ -158,7 +160,10 @@ def _evaluate_hdf5_body(case, t, axis, gen, note):
                     for f in fs:
                         note(variant, f, ids)
             # requests naming an unknown ID are refused
-            for req in ([UNKNOWN], [all_ids[0], UNKNOWN], [UNKNOWN] + list(all_ids)):
+            longest = max(all_ids, key=len)
+            for req in ([UNKNOWN], [all_ids[0], UNKNOWN], [UNKNOWN] + list(all_ids),
+                        # an unknown id that merely extends / truncates a stored one
+                        [longest + '0'], [longest + ' x', all_ids[0]], [longest[:-1]] if len(longest) > 1 and longest[:-1] not in all_ids else [UNKNOWN]):
                 for variant in HDF5_VARIANTS:
                     count += 1
                     try:
@@ -501,6 +506,16 @@ def hdf5_cases(tier, seed=0):
         for axis in U.AXES:
             k += 1
             yield dict(st, axis=axis, rseed=k + 7919 * int(seed), compress=bool(k % 2))
+    for st in _long_axis_cases():
+        yield dict(st, compress=False)
+
+
+def _long_axis_cases():
+    """a long axis (10 vectors with pairwise different contents) on either side"""
+    long_ = [[float(3 * r + c + 1) if (r + c) % 3 else 0.0 for c in range(2)] for r in range(10)]
+    wide = [[float(7 * c + r + 1) if (r + 2 * c) % 4 else 0.0 for c in range(10)] for r in range(2)]
+    yield {'A': long_, 'axis': 'observation', 'rseed': 11, 'layout': 'csr', 'zeros': 'nz'}
+    yield {'A': wide, 'axis': 'sample', 'rseed': 12, 'layout': 'csr', 'zeros': 'nz'}
 
 
 def json_cases(tier, seed=0):
@@ -512,6 +527,7 @@ def json_cases(tier, seed=0):
     # table ids that contain JSON punctuation
     for axis in U.AXES:
         yield {'A': U.RICH_BASE[0], 'table_id': 'comma', 'axis': axis}
+    yield from _long_axis_cases()
 
 
 def cli_cases(tier):
